@@ -497,3 +497,133 @@ Theorem run_faithful_plain c p x :
 Proof. intros Hc Hwf. apply run_faithful; [exact Hwf|apply safe_plain; exact Hc]. Qed.
 
 End Faithful.
+
+(* ------------------------------------------------------------------
+   Part 2: naturality of the array machine and the index-array
+   representation of every program. *)
+Definition op_eops (o : op) : list eop :=
+  match o with OEl e => [e] | OStack vs => vs | _ => [] end.
+
+Lemma stack_rows_map {A B} (h : A -> B) d n (ls : list (list A)) :
+  map h (stack_rows d n ls) = stack_rows (h d) n (map (map h) ls).
+Proof.
+  unfold stack_rows. induction (seq 0 n) as [|p ps IH]; simpl; [reflexivity|].
+  rewrite map_app, IH. f_equal. rewrite !map_map. apply map_ext. intros l. symmetry. apply map_nth.
+Qed.
+
+Section Naturality.
+Context {E1 E2 : Type} (act1 : eop -> option (E1 -> E1)) (act2 : eop -> option (E2 -> E2))
+        (h : E1 -> E2) (d1 : E1).
+
+Definition compat (e : eop) : Prop :=
+  match act1 e, act2 e with
+  | Some f1, Some f2 => forall x, h (f1 x) = f2 (h x)
+  | None, None => True
+  | _, _ => False
+  end.
+
+Definition amap (a : list nat * list E1) : list nat * list E2 := (fst a, map h (snd a)).
+
+Lemma all_some_compat vs : Forall compat vs ->
+  match all_some (map act1 vs), all_some (map act2 vs) with
+  | Some fs1, Some fs2 =>
+      length fs1 = length fs2 /\
+      forall l, map (fun f => map f (map h l)) fs2 = map (map h) (map (fun f => map f l) fs1)
+  | None, None => True
+  | _, _ => False
+  end.
+Proof.
+  intros H; induction H as [|e vs He _ IH]; simpl.
+  - split; [reflexivity|]. intros; reflexivity.
+  - unfold compat in He. destruct (act1 e) as [f1|], (act2 e) as [f2|]; try contradiction; [|exact I].
+    destruct (all_some (map act1 vs)) as [fs1|], (all_some (map act2 vs)) as [fs2|]; try contradiction;
+      [|exact I].
+    destruct IH as [Hl Hm]. split; [simpl; congruence|].
+    intros l. simpl. rewrite Hm. f_equal. rewrite !map_map. apply map_ext. intros x. symmetry; apply He.
+Qed.
+
+Lemma astep_nat o s l : Forall compat (op_eops o) ->
+  astep act2 (h d1) o (s, map h l) = option_map amap (astep act1 d1 o (s, l)).
+Proof.
+  intros Hc. destruct o as [k|dims| |axes| |vs|e]; cbn [astep];
+    try (rewrite apply_plan_map;
+         match goal with |- context[apply_plan d1 l ?p] => destruct (apply_plan d1 l p) as [[s' l']|] end;
+         reflexivity).
+  - (* stack *)
+    simpl in Hc. pose proof (all_some_compat vs Hc) as H.
+    destruct vs as [|e0 vs']; [reflexivity|].
+    destruct (all_some (map act1 (e0 :: vs'))) as [fs1|], (all_some (map act2 (e0 :: vs'))) as [fs2|];
+      try contradiction; [|reflexivity].
+    destruct H as [Hl Hm]. unfold option_map, amap; cbn [fst snd].
+    rewrite stack_rows_map, Hm, Hl. reflexivity.
+  - (* element-wise *)
+    simpl in Hc. inversion Hc as [|? ? He _]; subst. unfold compat in He.
+    destruct (act1 e) as [f1|], (act2 e) as [f2|]; try contradiction; [|reflexivity].
+    unfold option_map, amap; cbn [fst snd]. rewrite !map_map. f_equal. f_equal.
+    apply map_ext. intros x. symmetry; apply He.
+Qed.
+
+Theorem arun_nat p : forall s l, Forall compat (flat_map op_eops p) ->
+  arun act2 (h d1) p (s, map h l) = option_map amap (arun act1 d1 p (s, l)).
+Proof.
+  induction p as [|o p IH]; intros s l Hc; cbn [arun]; [reflexivity|].
+  simpl in Hc. apply Forall_app in Hc as [Ho Hp].
+  rewrite (astep_nat o s l Ho).
+  destruct (astep act1 d1 o (s, l)) as [[s' l']|]; cbn [option_map amap fst snd]; [|reflexivity].
+  apply IH; exact Hp.
+Qed.
+End Naturality.
+
+(* every program is determined by its run on the INDEX ARRAY: run it on
+   elements (k, history) starting from (k, []) for k = 0 .. n-1; the result
+   of the real run is obtained by reading element k of the input and
+   replaying the element-wise operations of the history on it *)
+Section Representation.
+Context {E : Type} (act : eop -> option (E -> E)) (d : E).
+
+Definition sym : Type := (nat * list eop)%type.
+Definition act_sym (e : eop) : option (sym -> sym) :=
+  match act e with Some _ => Some (fun x => (fst x, snd x ++ [e])) | None => None end.
+Definition apply_e (e : eop) (x : E) : E := match act e with Some f => f x | None => x end.
+Definition interp (l : list E) (x : sym) : E :=
+  fold_left (fun y e => apply_e e y) (snd x) (nth (fst x) l d).
+Definition iota (n : nat) : list sym := map (fun k => (k, [])) (seq 0 n).
+
+Lemma interp_iota l : map (interp l) (iota (length l)) = l.
+Proof.
+  unfold iota. rewrite map_map. unfold interp; simpl. apply map_nth_seq.
+Qed.
+
+Theorem representation p s l :
+  arun act d p (s, l)
+  = option_map (fun a => (fst a, map (interp l) (snd a)))
+               (arun act_sym (length l, []) p (s, iota (length l))).
+Proof.
+  rewrite <- (interp_iota l) at 1.
+  replace d with (interp l (length l, [])) at 1
+    by (unfold interp; simpl; apply nth_overflow; lia).
+  apply (arun_nat act_sym act (interp l) (length l, [])).
+  apply Forall_forall. intros e _. unfold compat, act_sym.
+  destruct (act e) as [f|] eqn:Ef; [|exact I].
+  intros [k es]. unfold interp; simpl. rewrite fold_left_app. simpl.
+  unfold apply_e at 1. rewrite Ef. reflexivity.
+Qed.
+End Representation.
+
+(* purely structural programs on a class: the rows (value, flag) are gathered
+   exactly as the index array 0 .. n-1 is *)
+Definition act_idx (e : eop) : option (nat -> nat) :=
+  match e with EId => Some (fun k => k) | _ => None end.
+
+Theorem struct_index_array {V} (vf : vfuns V) c p s (rows : list (V * bool)) :
+  Forall (fun e => e = EId) (flat_map op_eops p) ->
+  arun (sact vf c) (drow vf) p (s, rows)
+  = option_map (fun a => (fst a, gather (drow vf) rows (snd a)))
+               (arun act_idx (length rows) p (s, seq 0 (length rows))).
+Proof.
+  intros H.
+  rewrite <- (map_nth_seq rows (drow vf)) at 1.
+  replace (drow vf) with (nth (length rows) rows (drow vf)) at 1 by (apply nth_overflow; lia).
+  apply (arun_nat act_idx (sact vf c) (fun k => nth k rows (drow vf)) (length rows)).
+  eapply Forall_impl; [|exact H]. intros e He; cbv beta in He; subst e. unfold compat; simpl. reflexivity.
+Qed.
